@@ -3,26 +3,39 @@ import RedisVerif.Driver.Codec
 import RedisVerif.Model.AntiEntropy
 
 /-
-  C18 sub-driver (stateful).  The state holds the tables of REAL hash values that instantiate
-  the model's abstract `Hasher` (key hash per key, value hash per value stream (`AE.currentStream`),
-  word-stream hash per stream) and two state slots `a`, `b` with their real iteration orders.
+  C18 sub-driver (stateful).  The model HASHES ITSELF: `AE.currentHasher` = SipHash-1-3 (zero key,
+  `Model/SipHash.lean`) over the byte streams of `Model/HashBytes.lean` / `AE.byteStream`.  The op
+  lines still carry the REAL hash values (`KeyDigest::new`'s key hash and value hash, the hashes of
+  the word streams `from_digests` / `combine` consumed); the driver only COMPARES them with what
+  the model computes (`conflicts`).  Two state slots `a`, `b` with their real iteration orders.
 
-    RESET                                              forget tables and slots          → ok
+    RESET                                              forget the slots                 → ok
+    SIP <hex>                                          DefaultHasher over raw bytes     → <u64>
     S <a|b> <depth> <n> (<keyhex> <kh> <vh> <rv>)*n    state in REAL iteration order,
                                                        with KeyDigest::new's hashes     → ok <n> conflicts=<c>
-    W <m> (<len> <word>*len <hash>)*m                  word-stream hash table entries   → ok
+    W <m> (<len> <word>*len <hash>)*m                  word streams and their real hash → ok conflicts=<c>
     D <a|b>                                            StateDigest::from_state          → root=… count=… maxts=… nb=<#buckets> buckets=<i>:h:c:m,… (non-empty ones)
     ALLOC <depth>                                      what `1 << depth` buckets allocate → buckets <n> | panic capacity-overflow
     CMP <x> <y>                                        differs_from, divergent_buckets  → differs=<0|1> div=<list>
     G <a|b> <limit> <nb> <bucket>*nb                   get_keys_in_buckets              → g <keyhex>*
     SYNC <limit>                                       run_anti_entropy_sync(a, b)      → a <n> (<keyhex> <rv>)* | b <n> …
+    SYNC3 <limit>                                      run_full_anti_entropy on a, b, c → a … | b … | c …
+    HEAL <was partitioned> <auto> <limit>              heal_partition(a, b)             → a … | b …
+    MNEW <a|b|c> <rid> <depth> <limit> <interval> <auto>   AntiEntropyManager::new with that config      → ok
+    MWRITE <n> | MDUE <n> <peer> <now> | MHEAL <n> <peer> | MNEED <n> <now>
+                                                       on_local_write / should_sync / on_partition_healed / peers_needing_sync
+    MDIG <id> <n>                                      digest register id := generate_digest(n's state NOW)
+    MPROC <n> <id>                                     n.process_peer_digest(register id, n's digest NOW)
+    MREQ <id> <n> <peer> <full> <now>                  request register id := n.create_sync_request(peer, n's digest NOW,
+                                                       buckets of n's last verdict | None)
+    MHANDLE <rid> <n> <qid>                            response register rid := n.handle_sync_request(request qid, n's state NOW)
+    MAPPLY <n> <rid>                                   n merges response rid into its state NOW (apply_remote_delta each)
     PULL <a|b> <full 0|1> <limit>                      message protocol, requester = slot: process_peer_digest,
                                                        create_sync_request, handle_sync_request, merge
                                                                                         → differs=… div=… resp=<keyhex>,… | <slot> <n> (<keyhex> <rv>)*
 
-  A hash the tables do not contain evaluates to 2^64 (not a u64), which surfaces as a
-  disagreement; `conflicts` counts table entries that would make a hash a non-function of what
-  the model says it is a function of.
+  `conflicts` counts carried hashes that differ from the model's: a change of what the code feeds
+  to the hasher (order, separators, a dropped field) or of the hash function surfaces here first.
 -/
 namespace RedisVerif.Driver.C18
 open RedisVerif RedisVerif.Driver RedisVerif.AE
@@ -33,38 +46,59 @@ structure Slot where
   state : NMap RV
 
 structure St where
-  keyTab : List (Nat × Nat)
-  valTab : List (List Nat × Nat)
-  wordsTab : Std.HashMap (List Nat) Nat
   a : Slot
   b : Slot
+  c : Slot
+  /-- `AntiEntropyManager` of node 0 / 1 / 2 (= slot a / b / c) -/
+  mgrs : List (Nat × Mgr)
+  /-- message registers: digests, requests (with the verdict they were built from), responses -/
+  digs : List (Nat × TDigest)
+  verdicts : List (Nat × Option (List Nat))
+  reqs : List (Nat × Request)
+  resps : List (Nat × Response)
 
 def Slot.empty : Slot := { depth := 0, order := [], state := [] }
 
-def St.init : St := { keyTab := [], valTab := [], wordsTab := {}, a := Slot.empty, b := Slot.empty }
+def St.init : St := { a := Slot.empty, b := Slot.empty, c := Slot.empty, mgrs := [], digs := [], verdicts := [], reqs := [], resps := [] }
 
-def missing : Nat := 18446744073709551616
+/-- the hasher of the current tree (SipHash-1-3 over the model's byte streams) -/
+def St.hasher (_ : St) : Hasher := currentHasher
 
-def St.hasher (st : St) : Hasher :=
-  { key := fun k => (st.keyTab.lookup k).getD missing
-    val := fun stream => (st.valTab.lookup stream).getD missing
-    words := fun ws => (st.wordsTab.get? ws).getD missing }
+/-- the model's string decoder is the codec's on every code the codec produces -/
+theorem keyCode_eq_code : @keyCode = @HB.code := rfl
 
-/-- byte-wise lexicographic `≤` — Rust's `String::cmp` on the UTF-8 bytes -/
-def bytesLe : List Nat → List Nat → Bool
-  | [], _ => true
-  | _ :: _, [] => false
-  | x :: xs, y :: ys => if x < y then true else if y < x then false else bytesLe xs ys
-
-/-- the key order of `get_keys_in_buckets`, on key codes (NOT the order of the codes, which is
-    length-first) -/
-def keyLe (a b : Nat) : Bool := bytesLe (keyDecode a) (keyDecode b)
+/-- the key order of `get_keys_in_buckets`: byte-wise `String::cmp` on the decoded keys (NOT the
+    order of the codes, which is length-first) -/
+def keyLe (a b : Nat) : Bool := HB.bytesLe (HB.keyStr a) (HB.keyStr b)
 
 def slotTok : P Bool := do
   let t ← tok
   if t == "a" then pure true else if t == "b" then pure false else failure
 
 def St.slot (st : St) (isA : Bool) : Slot := if isA then st.a else st.b
+
+/-- the slot after an op of the model: an UNCHANGED state keeps the real iteration order the
+    harness last reported (it does not re-send a state that did not change), a changed one is
+    re-sent by the harness before its order matters -/
+def Slot.withState (sl : Slot) (s' : NMap RV) : Slot :=
+  if s' = sl.state then sl else { sl with state := s', order := NMap.keys s' }
+
+def nodeTok : P Nat := do
+  let t ← tok
+  if t == "a" then pure 0 else if t == "b" then pure 1 else if t == "c" then pure 2 else failure
+
+def St.slotN (st : St) (i : Nat) : Slot := if i == 0 then st.a else if i == 1 then st.b else st.c
+
+def St.setSlotN (st : St) (i : Nat) (s : Slot) : St :=
+  if i == 0 then { st with a := s } else if i == 1 then { st with b := s } else { st with c := s }
+
+def St.mgr (st : St) (i : Nat) : Mgr := (st.mgrs.lookup i).getD (Mgr.new 0 0 0 0 false)
+
+def St.setMgr (st : St) (i : Nat) (m : Mgr) : St := { st with mgrs := (i, m) :: st.mgrs.filter (fun p => p.1 != i) }
+
+def put {α : Type} (l : List (Nat × α)) (k : Nat) (v : α) : List (Nat × α) := (k, v) :: l.filter (fun p => p.1 != k)
+
+def showSet (s : List Nat) : String := ",".intercalate (s.map toString)
 
 def showNode (n : MerkleNode) : String := s!"{n.hash}:{n.count}:{n.maxTs}"
 
@@ -97,32 +131,107 @@ def cmd (st : St) : P (St × String) := do
   let op ← tok
   match op with
   | "RESET" => pure (St.init, "ok")
+  | "SIP" => do
+    let b ← bytesTok
+    pure (st, toString (Sip.sip13 b))
   | "S" => do
-    let isA ← slotTok
+    let node ← nodeTok
     let depth ← nat
     let n ← nat
     let es ← repeatP n entry
-    -- extend the tables, counting conflicts
-    let (kt, vt, c) := es.foldl (fun (acc : List (Nat × Nat) × List (List Nat × Nat) × Nat) e =>
-      let (kt, vt, c) := acc
+    -- compare the carried (real) hashes with the model's
+    let c := es.foldl (fun (c : Nat) e =>
       let (k, kh, vh, v) := e
-      let pk := currentStream v
-      let (kt, c) := match kt.lookup k with
-        | some x => (kt, if x == kh then c else c + 1)
-        | none => ((k, kh) :: kt, c)
-      let (vt, c) := match vt.lookup pk with
-        | some x => (vt, if x == vh then c else c + 1)
-        | none => ((pk, vh) :: vt, c)
-      (kt, vt, c)) (st.keyTab, st.valTab, 0)
+      let c := if currentHasher.key k == kh then c else c + 1
+      if currentHasher.val (currentStream v) == vh then c else c + 1) 0
     -- the op line carries the CONFIGURED depth; every model function gets the effective one
     let slot : Slot := { depth := effectiveDepth currentDepthBound depth, order := es.map (·.1), state := NMap.ofList (es.map fun e => (e.1, e.2.2.2)) }
-    let st' := { st with keyTab := kt, valTab := vt }
-    let st' := if isA then { st' with a := slot } else { st' with b := slot }
-    pure (st', s!"ok {slot.state.length} conflicts={c}")
+    pure (st.setSlotN node slot, s!"ok {slot.state.length} conflicts={c}")
   | "W" => do
     let m ← nat
     let es ← repeatP m wordsEntry
-    pure ({ st with wordsTab := es.foldl (fun m e => m.insert e.1 e.2) st.wordsTab }, "ok")
+    let c := es.foldl (fun (c : Nat) e => if currentHasher.words e.1 == e.2 then c else c + 1) 0
+    pure (st, s!"ok conflicts={c}")
+  | "MNEW" => do
+    let node ← nodeTok
+    let rid ← nat
+    let depth ← nat
+    let limit ← nat
+    let interval ← nat
+    let auto ← nat
+    pure (st.setMgr node (Mgr.new rid depth limit interval (auto != 0)), "ok")
+  | "MWRITE" => do
+    let node ← nodeTok
+    let m := (st.mgr node).onLocalWrite
+    pure (st.setMgr node m, s!"gen={m.generation}")
+  | "MDUE" => do
+    let node ← nodeTok
+    let peer ← nat
+    let now ← nat
+    let r := match (st.mgr node).shouldSync peer now with | .yes => "yes" | .no => "no" | .underflow => "underflow"
+    pure (st, s!"due={r}")
+  | "MHEAL" => do
+    let node ← nodeTok
+    let peer ← nat
+    let m := (st.mgr node).onPartitionHealed peer
+    pure (st.setMgr node m, s!"dp={showSet m.divergentPeers}")
+  | "MNEED" => do
+    let node ← nodeTok
+    let now ← nat
+    match (st.mgr node).peersNeedingSync now with
+    | some l => pure (st, s!"need {showSet l}")
+    | none => pure (st, "need underflow")
+  | "MDIG" => do
+    let id ← nat
+    let node ← nodeTok
+    let sl := st.slotN node
+    let d := (st.mgr node).generateDigest st.hasher sl.order sl.state
+    pure ({ st with digs := put st.digs id d }, s!"dg rid={d.rid} gen={d.generation} root={d.d.rootHash} count={d.d.keyCount} nb={d.d.buckets.length}")
+  | "MPROC" => do
+    let node ← nodeTok
+    let id ← nat
+    match st.digs.lookup id with
+    | none => failure
+    | some pd =>
+      let sl := st.slotN node
+      let m := st.mgr node
+      let ours := m.generateDigest st.hasher sl.order sl.state
+      let (m', v) := m.processPeerDigest pd ours
+      let vs := match v with | none => "none" | some l => "div=" ++ showSet l
+      pure ({ (st.setMgr node m') with verdicts := put st.verdicts node v }, s!"proc {vs} dp={showSet m'.divergentPeers}")
+  | "MREQ" => do
+    let id ← nat
+    let node ← nodeTok
+    let peer ← nat
+    let full ← nat
+    let now ← nat
+    let sl := st.slotN node
+    let m := st.mgr node
+    let ours := m.generateDigest st.hasher sl.order sl.state
+    let buckets := if full != 0 then none else ((st.verdicts.lookup node).getD none)
+    let (m', rq) := m.createSyncRequest peer ours buckets now
+    let bs := match rq.buckets with | none => "none" | some l => showSet l
+    pure ({ (st.setMgr node m') with reqs := put st.reqs id rq }, s!"req from={rq.fromR} to={rq.toR} buckets={bs} root={rq.digest.d.rootHash} gen={rq.digest.generation}")
+  | "MHANDLE" => do
+    let rid ← nat
+    let node ← nodeTok
+    let qid ← nat
+    match st.reqs.lookup qid with
+    | none => failure
+    | some rq =>
+      let sl := st.slotN node
+      let (m', rs) := (st.mgr node).handleSyncRequest st.hasher rq sl.order sl.state
+      pure ({ (st.setMgr node m') with resps := put st.resps rid rs },
+        s!"resp from={rs.fromR} keys={",".intercalate (rs.deltas.map fun p => showKey p.1)} root={rs.digest.d.rootHash} dp={showSet m'.divergentPeers}")
+  | "MAPPLY" => do
+    let node ← nodeTok
+    let rid ← nat
+    match st.resps.lookup rid with
+    | none => failure
+    | some rs =>
+      let sl := st.slotN node
+      let s' := applyDeltas sl.state rs.deltas
+      pure (st.setSlotN node (sl.withState s'), showState "s" s')
   | "D" => do
     let isA ← slotTok
     pure (st, showDigest (slotDigest st (st.slot isA)))
@@ -144,8 +253,25 @@ def cmd (st : St) : P (St × String) := do
   | "SYNC" => do
     let limit := effectiveLimit currentLimitAtLeastOne (← nat)
     let (a', b') := syncRound keyLe st.hasher st.a.depth limit st.a.order st.b.order st.a.state st.b.state
-    let st' := { st with a := { st.a with state := a', order := NMap.keys a' },
-                         b := { st.b with state := b', order := NMap.keys b' } }
+    let st' := { st with a := st.a.withState a', b := st.b.withState b' }
+    pure (st', showState "a" a' ++ " | " ++ showState "b" b')
+  | "SYNC3" => do
+    -- `run_full_anti_entropy` on three connected nodes: the pairs (a,b), (a,c), (b,c) in this order
+    let limit := effectiveLimit currentLimitAtLeastOne (← nat)
+    let (a1, b1) := syncRound keyLe st.hasher st.a.depth limit st.a.order st.b.order st.a.state st.b.state
+    let (a2, c1) := syncRound keyLe st.hasher st.a.depth limit (NMap.keys a1) st.c.order a1 st.c.state
+    let (b2, c2) := syncRound keyLe st.hasher st.a.depth limit (NMap.keys b1) (NMap.keys c1) b1 c1
+    let st' := { st with a := st.a.withState a2, b := st.b.withState b2, c := st.c.withState c2 }
+    pure (st', showState "a" a2 ++ " | " ++ showState "b" b2 ++ " | " ++ showState "c" c2)
+  | "HEAL" => do
+    -- `heal_partition(a, b)`: a sync iff the pair was partitioned and `auto_anti_entropy` is on
+    let was ← nat
+    let auto ← nat
+    let limit := effectiveLimit currentLimitAtLeastOne (← nat)
+    let (a', b') := if was != 0 && auto != 0 then
+        syncRound keyLe st.hasher st.a.depth limit st.a.order st.b.order st.a.state st.b.state
+      else (st.a.state, st.b.state)
+    let st' := { st with a := st.a.withState a', b := st.b.withState b' }
     pure (st', showState "a" a' ++ " | " ++ showState "b" b')
   | "PULL" => do
     let isA ← slotTok
@@ -154,7 +280,7 @@ def cmd (st : St) : P (St × String) := do
     let rq := st.slot isA
     let pr := st.slot (!isA)
     let (d, div, resp, r') := pull st.hasher rq.depth limit (full != 0) rq.order pr.order rq.state pr.state
-    let slot' : Slot := { rq with state := r', order := NMap.keys r' }
+    let slot' : Slot := rq.withState r'
     let st' := if isA then { st with a := slot' } else { st with b := slot' }
     pure (st', s!"differs={if d then 1 else 0} div=" ++ ",".intercalate (div.map toString)
       ++ " resp=" ++ ",".intercalate (resp.map (fun p => showKey p.1)) ++ " | " ++ showState (if isA then "a" else "b") r')
